@@ -230,7 +230,7 @@ def set_upper_bounds(model: Model, bounds: Mapping[str, float], strict: bool = T
     >>> model = load_example_model("pheno")
     >>> model = set_upper_bounds(model, {'POP_CL': 10})
     >>> model.parameters['POP_CL']
-    Parameter("POP_CL", 0.00469307, lower=0.0, upper=10, fix=False)
+    Parameter("POP_CL", 0.00469307, lower=0.0, upper=10.0, fix=False)
 
     See also
     --------
@@ -242,9 +242,7 @@ def set_upper_bounds(model: Model, bounds: Mapping[str, float], strict: bool = T
     new = []
     for p in model.parameters:
         if p.name in bounds:
-            newparam = Parameter(
-                name=p.name, init=p.init, lower=p.lower, upper=bounds[p.name], fix=p.fix
-            )
+            newparam = p.replace(upper=bounds[p.name])
         else:
             newparam = p
         new.append(newparam)
@@ -275,7 +273,7 @@ def set_lower_bounds(model: Model, bounds: Mapping[str, float], strict: bool = T
     >>> model = load_example_model("pheno")
     >>> model = set_lower_bounds(model, {'POP_CL': -10})
     >>> model.parameters['POP_CL']
-    Parameter("POP_CL", 0.00469307, lower=-10, upper=∞, fix=False)
+    Parameter("POP_CL", 0.00469307, lower=-10.0, upper=∞, fix=False)
 
     See also
     --------
@@ -287,9 +285,7 @@ def set_lower_bounds(model: Model, bounds: Mapping[str, float], strict: bool = T
     new = []
     for p in model.parameters:
         if p.name in bounds:
-            newparam = Parameter(
-                name=p.name, init=p.init, lower=bounds[p.name], upper=p.upper, fix=p.fix
-            )
+            newparam = p.replace(lower=bounds[p.name])
         else:
             newparam = p
         new.append(newparam)
